@@ -116,6 +116,17 @@ CHECKS = {
         note="Crash model is process death (Python buffers lost), not power loss; interception is at builtins.open / io.open / os.replace / os.rename / os.remove, so writes that bypass the staging helper are still observed; an exception inside the clean-up's own os.remove is not injected.",
         technique="exhaustive fault / crash-point enumeration over the recorded file-operation sequence of the real write path",
     ),
+
+    "C12": dict(
+        engine="E3", category="exploration",
+        text=("Bounded-exhaustive enumeration of values per store domain through the real store classes (direct, pathlib paths, and through a MountedStore): TextFileStore x 5 encodings x "
+              "{all strings of length <= 3 over a 9-symbol alphabet of line terminators / control characters / BOM / astral code points, every Unicode scalar value}, JsonFileStore x all JSON values up to a size bound, "
+              "PickleFileStore, BinaryFileStore (all byte strings up to a length bound + 64 KiB), TouchFileStore; oracle: read() equal and of the same type recursively, get_modified_time None exactly before the first write and never decreasing; "
+              "plus every operation sequence of length <= 4 over {write v1, write v2, read, get_modified_time}. The quantifier is over values, so the deciding step is complete enumeration below the stated bounds."),
+        design_ref="DESIGN.md section 4, C12",
+        note="Bounds as in the evidence file; NaN and non-str dict keys are outside the JSON domain; 'large' = 64 KiB; file-system timestamp granularity means equal times are accepted as 'not decreasing'.",
+        technique="bounded-exhaustive input enumeration against a reference (identity) model",
+    ),
 }
 
 NOT_APPLICABLE = {
